@@ -446,7 +446,7 @@ Proof.
   set (objs := fst (Iso.encrypt_objects I ip fek (d_objects d) ivs)) in *.
   assert (Hge : get_encrypted D = Some (write_params ip)) by apply get_encrypted_enc_doc.
   assert (Hkeys : map fst objs = map fst (d_objects d)) by apply iso_encrypt_objects_keys.
-  unfold doc_decrypt_raw, is_encrypted. rewrite Hge. cbn [negb]. rewrite Hauth, Hdec.
+  unfold doc_decrypt_raw, doc_decrypt_raw_x, is_encrypted. rewrite Hge. cbn [negb]. rewrite Hauth, Hdec.
   unfold opened_doc. destruct eid as [[i g]|]; [set (id := (i, g)) in *|]; unfold D, enc_doc;
     cbn [d_trailer d_objects d_version d_binary_mark d_max_id];
     change iK_Encrypt with K_Encrypt; rewrite dget_set_same.
@@ -500,7 +500,7 @@ Let I := iprims_of P.
 Lemma doc_decrypt_raw_eq ip objs eid d pw : shape_r4 ip -> length (ip_O ip) = 32%nat -> length (ip_U ip) = 32%nat ->
   doc_decrypt P (enc_doc ip objs eid d) pw = doc_decrypt_raw P (enc_doc ip objs eid d) pw.
 Proof.
-  intros Hs HO HU. unfold doc_decrypt, is_encrypted. rewrite get_encrypted_enc_doc. cbn [negb].
+  intros Hs HO HU. unfold doc_decrypt, doc_decrypt_x, is_encrypted. rewrite get_encrypted_enc_doc. cbn [negb].
   rewrite palg_of_doc_eq, get_encrypted_enc_doc, (palg_of_write_params ip Hs HO HU).
   unfold sanitize_password. cbn [palg_of_ip pa_revision]. unfold shape_r4 in Hs.
   destruct Hs as [(_ & -> & _)|[(_ & -> & _)|(_ & -> & _)]]; reflexivity.
